@@ -1486,13 +1486,16 @@ class System:
         self.unprocessed_modules.remove(mod)
         if mod.source_path is None:
             assert mod._py_string is not None
+        # The module can be moved (re-exported by a module it imports, directly or not)
+        # while it's processed: that's the name it's known by in processing_modules.
+        processing_name = mod.fullName()
         if mod._is_c_module:
-            self.processing_modules.append(mod.fullName())
+            self.processing_modules.append(processing_name)
             self.msg("processModule", "processing %s"%(self.processing_modules), 1)
             self._introspectThing(mod._py_mod, mod, mod)
             mod.state = ProcessingState.PROCESSED
             head = self.processing_modules.pop()
-            assert head == mod.fullName()
+            assert head == processing_name
         else:
             builder = self.defaultBuilder(self)
             if mod._py_string is not None:
@@ -1501,13 +1504,13 @@ class System:
                 assert mod.source_path is not None
                 ast = builder.parseFile(mod.source_path, mod)
             if ast:
-                self.processing_modules.append(mod.fullName())
+                self.processing_modules.append(processing_name)
                 if mod._py_string is None:
                     self.msg("processModule", "processing %s"%(self.processing_modules), 1)
                 builder.processModuleAST(ast, mod)
                 mod.state = ProcessingState.PROCESSED
                 head = self.processing_modules.pop()
-                assert head == mod.fullName()
+                assert head == processing_name
         self.progress(
             'process',
             self.module_count - len(self.unprocessed_modules),
